@@ -167,6 +167,7 @@ func js(v any) string {
 }
 
 func short(s string, n int) string {
+	s = strings.Join(strings.Fields(s), " ")
 	if len(s) > n {
 		return s[:n] + "..."
 	}
